@@ -173,6 +173,10 @@ class C09(Check):
                 lo = max(2, x - rng.randrange(0, 12))
                 plan["skip"] = sorted(set(plan["skip"]) | set(range(lo, min(0x7E, x + rng.randrange(1, 30)) + 1)))
             plan["skip_expr"] = encode_ranges(rng, plan["skip"])
+        if plan["skip"] and not plan["skip_expr"]:
+            rng.shuffle(plan["skip"])  # a list handed over through the Python API comes in any order
+        # which response code the ECU refuses a session change with
+        plan["refuse_nrc"] = rng.choice([None, None, 0x12, 0x12, 0x7E])  # (other codes make the scanner list the session as "identified but not activated": a different report)
         plan["reset"] = rng.random() < 0.2
         plan["offer_reset"] = rng.random() < 0.8
         plan["db"] = rng.random() < 0.4
@@ -243,7 +247,7 @@ class C09(Check):
         world.net.policy_factory = lambda i, d: Policy(seed=plan["net_seed"] + 2 * i + (d == "s2c"), segment=plan["segment"], lat_min=plan["lat"][0], lat_max=plan["lat"][1])
         world.sql.latency = lambda c, n: 0.0003
         world.install(capture=lambda r: getattr(r, "tags", None) == ["result"])
-        ecu = GraphECU(graph, offer_reset=plan["offer_reset"])
+        ecu = GraphECU(graph, offer_reset=plan["offer_reset"], refuse_nrc=plan.get("refuse_nrc"))
         kw: dict[str, Any] = {}
         if plan["db"]:
             kw["db"] = tmp / "db.sqlite"
